@@ -33,7 +33,7 @@ ROLES = {
     "l2": [("SocksPort", "PortLines", {"x": "9052", "y": "9051 IsolateDestAddr", "z": "unix:/tmp/s.sock", "d1": "9050",
                                        "DEFAULT": "DEFAULT"}),
            # a port option Tor has no built-in default for: no config/defaults entry, __TransPort unset
-           ("TransPort", "PortLines", {"x": "9040", "y": "9041 IsolateDestAddr", "z": "127.0.0.1:9042", "DEFAULT": "DEFAULT"})],
+           ("TransPort", "PortLines", {"x": "9040", "y": "9041 IsolateDestAddr", "z": 0, "DEFAULT": "DEFAULT"})],      # (z: the number 0, as ports are often given)
 }
 
 
@@ -135,7 +135,7 @@ class Run(object):
         return dict((r, self.opt[r][0].lower()) for r in self.opt)
 
     def conc(self):
-        return dict((r, self.opt[r][2]) for r in self.opt)
+        return dict((r, dict((t, str(v)) for t, v in self.opt[r][2].items())) for r in self.opt)
 
     def apply_setconf(self, line):
         """Tor applies the SETCONF and queues one announcement naming every option whose value changed"""
@@ -173,7 +173,7 @@ class Run(object):
         out = []
         for c in chs:
             name, typ, conc = self.opt[c["o"]]
-            out.append((name.lower(), [conc[t] for t in c["v"]]))
+            out.append((name.lower(), [str(conc[t]) for t in c["v"]]))
         return out
 
     def role_of(self, name):
@@ -188,7 +188,7 @@ class Run(object):
             if a == "Attach":
                 for r, vals in e["store"].items():
                     name, typ, conc = self.opt[r]
-                    self.sim.conf[name.lower()] = [conc[t] for t in vals]
+                    self.sim.conf[name.lower()] = [str(conc[t]) for t in vals]
                 if self.pick.get("midboot"):
                     # another controller changes an option while we are still reading the configuration: Tor
                     # answers our GETCONF for it with the old value and announces the new one (the store's)
@@ -261,7 +261,7 @@ class Run(object):
                 elif len(new) == len(old) - 1:
                     i = [k for k in range(len(old)) if old[:k] + old[k + 1:] == new][0]
                     if old.index(old[i]) == i and i % 2 == 0:
-                        lst.remove(old[i])
+                        lst.remove(lst[i])
                     elif i == len(old) - 1:
                         lst.pop()
                     else:
